@@ -149,6 +149,20 @@ Theorem C17_grant_refs_loop : forall m domid base count, base + count <= 4294967
   gnt_refs_new m domid base 0 (N.to_nat count) = Val (named_refs domid base count).
 Proof. exact grant_refs_loop_lemma. Qed.
 
+(* every other method of the `Bytes` trait at region level and at guest-memory level (wire opcodes 19-34 of suite C17xen,
+   Suite.C17 norm_op): each is judged and modelled as the basic operation whose window it takes; where the slice / object /
+   exact form (or the guest level at the very end of the region) answers Err for what the basic form completes, the
+   model's observation is that of the basic operation with the result Err - and still satisfies the checker, for every
+   history and every choice of such operations *)
+Theorem C17xb_model_ok : forall c ops fl,
+  (cx_rkind c < 4 /\ 0 < cx_page c /\ cx_gbase c mod cx_page c = 0 /\
+   cx_gbase c + cx_size c + cx_page c <= 4294967296 * cx_page c /\
+   cx_gbase c + cx_size c + cx_page c < 9223372036854775808) ->
+  xops_of (cx_ops c) = Some ops ->
+  (cx_rkind c = 3 -> forall x, In x (cx_ops c) -> x_code x <> 9 /\ x_code x <> 10) ->
+  ok_C17xn c (force_err_obs fl (run_C17xn c ops)) = true.
+Proof. exact C17xb_model_ok_lemma. Qed.
+
 Print Assumptions C17_model_ok.
 Print Assumptions C17x_model_ok.
 Print Assumptions C17_guard_len_bytes.
@@ -163,3 +177,4 @@ Print Assumptions C17_handle_propagates.
 Print Assumptions C17_chain_guarded.
 Print Assumptions C17xn_model_ok.
 Print Assumptions C17_grant_refs_loop.
+Print Assumptions C17xb_model_ok.
